@@ -85,8 +85,12 @@ def _with(segs, **kw):
 
 
 CHIRPS3 = [S(K, 3000), S(J, 3000)] * 3
+# A negative duration -n is a reactive segment: hold the inputs until the cycle in which the device's own chirp has ended
+# (tx.valid back to 0), at most n cycles.  A host times its answer from the end of the device chirp, so the following
+# segment durations are measured from that event (this is what lets the menu straddle the 2.5 ms chirp time-out).
+DEVCHIRP = S(K, -120_010)
 # power-on reset -> device chirp -> three host chirp pairs: high-speed operation is entered during the last J
-HSPRE = [S(J, 1000), S(SE0, 310), S(K, 120_010), S(SE0, 6000)] + CHIRPS3
+HSPRE = [S(J, 1000), S(SE0, 310), DEVCHIRP, S(SE0, 6000)] + CHIRPS3
 HSREV = 180_001        # SE0 cycles after which this DUT has just reverted to FS (so that the next segment starts there)
 
 # name -> (prefix run nominally in the prologue, body open to deviations, cover goals)
@@ -105,33 +109,33 @@ SCRIPTS = {
     "hs_handshake": ([], [S(J, 100, vbus=0)] + HSPRE + [S(K, 3000), S(J, 3000), S(SE0, 1000)],
                      ["bus_reset", "chirp_started", "device_chirp", "hs_entered", "hs_by_handshake"]),
     # host chirps with a too-short K and an SE0 glitch in between: HS only after three valid pairs
-    "hs_glitchy": ([], [S(J, 1000), S(SE0, 310), S(K, 120_010), S(SE0, 6000), S(K, 3000), S(J, 3000), S(K, 10), S(J, 3000),
+    "hs_glitchy": ([], [S(J, 1000), S(SE0, 310), DEVCHIRP, S(SE0, 6000), S(K, 3000), S(J, 3000), S(K, 10), S(J, 3000),
                         S(K, 3000), S(SE0, 5), S(J, 3000), S(K, 3000), S(J, 3000), S(SE0, 1000)],
                    ["device_chirp", "hs_entered", "hs_by_handshake", "short_chirp_state_seen"]),
     # no host chirp: fall back to full speed after 2.5 ms; the next reset starts a new handshake
-    "hs_fallback": ([], [S(J, 1000), S(SE0, 310), S(K, 120_010), S(SE0, 150_010), S(J, 1000), S(SE0, 310), S(K, 1000)],
+    "hs_fallback": ([], [S(J, 1000), S(SE0, 310), DEVCHIRP, S(SE0, 150_010), S(J, 1000), S(SE0, 310), S(K, 1000)],
                     ["device_chirp", "fallback", "chirp_started"]),
     # host chirp starts too late to complete within 2.5 ms
-    "hs_late": ([], [S(J, 1000), S(SE0, 310), S(K, 120_010), S(SE0, 141_000)] + CHIRPS3 + [S(J, 1000), S(SE0, 310), S(K, 1000)],
+    "hs_late": ([], [S(J, 1000), S(SE0, 310), DEVCHIRP, S(SE0, 141_000)] + CHIRPS3 + [S(J, 1000), S(SE0, 310), S(K, 1000)],
                 ["device_chirp", "fallback", "chirp_started"]),
     # HS suspend and resume into HS (deviations also inside the handshake)
     "hs_suspend": ([], HSPRE + [S(SE0, HSREV), S(J, 12_010), S(J, 1000), S(K, 1000), S(SE0, 1000)],
                    ["hs_entered", "hs_revert", "suspend_hs", "hs_by_resume"]),
     # HS suspend, then reset out of suspend and a new handshake
-    "hs_suspend_reset": (HSPRE, [S(SE0, HSREV), S(J, 12_010), S(SE0, 160), S(K, 120_010), S(SE0, 6000)] + CHIRPS3 + [S(SE0, 1000)],
+    "hs_suspend_reset": (HSPRE, [S(SE0, HSREV), S(J, 12_010), S(SE0, 160), DEVCHIRP, S(SE0, 6000)] + CHIRPS3 + [S(SE0, 1000)],
                          ["hs_entered", "hs_revert", "suspend_hs", "reset_from_suspend", "chirp_from_suspend", "hs_by_handshake"]),
     # HS reset out of HS operation and new handshake
-    "hs_reset": (HSPRE, [S(SE0, HSREV), S(SE0, 12_010), S(K, 120_010), S(SE0, 6000)] + CHIRPS3 + [S(SE0, 1000)],
+    "hs_reset": (HSPRE, [S(SE0, HSREV), S(SE0, 12_010), DEVCHIRP, S(SE0, 6000)] + CHIRPS3 + [S(SE0, 1000)],
                  ["hs_entered", "hs_revert", "reset_hs", "hs_by_handshake"]),
     # the application restricts the speed while in HS operation (full_speed_only, later low_speed_only)
-    "hs_restrict": (HSPRE, [S(SE0, 1000), S(SE0, 1000, fs=1), S(J, 1000, fs=1), S(J, 1000), S(SE0, 310), S(K, 120_010),
+    "hs_restrict": (HSPRE, [S(SE0, 1000), S(SE0, 1000, fs=1), S(J, 1000, fs=1), S(J, 1000), S(SE0, 310), DEVCHIRP,
                             S(SE0, 6000)] + CHIRPS3 + [S(SE0, 1000, ls=1), S(2, 1000, ls=1)],
                     ["hs_entered", "hs_left_on_restriction", "speed_low"]),
     # VBUS loss while in HS operation
     "hs_vbus": (HSPRE, [S(SE0, 1000), S(SE0, 1000, vbus=0), S(J, 1000, vbus=0), S(J, 1000), S(SE0, 310), S(K, 1000)],
                 ["hs_entered", "reset_no_vbus", "hs_left_other", "chirp_started"]),
     # soft disconnect while in HS operation; bus_busy delaying the device chirp
-    "hs_disc": (HSPRE, [S(SE0, 1000), S(J, 1000, disc=1), S(J, 1000), S(SE0, 310), S(K, 1000, busy=1), S(K, 120_010), S(SE0, 1000)],
+    "hs_disc": (HSPRE, [S(SE0, 1000), S(J, 1000, disc=1), S(J, 1000), S(SE0, 310), S(K, 1000, busy=1), DEVCHIRP, S(SE0, 1000)],
                 ["hs_entered", "nondriving", "device_chirp"]),
 }
 ORDER = ["fs_a", "fs_b", "ls", "hs_handshake", "hs_glitchy", "hs_fallback", "hs_late", "hs_suspend", "hs_suspend_reset",
@@ -284,7 +288,8 @@ class ResetSpec(Spec):
     def label(self, a):
         kind, adv, inp, dur, mask = a
         fl = ",".join(f"{n}={v}" for n, v in zip(FLAGS, inp[1:]) if v != (1 if n == "vbus_connected" else 0))
-        return f"{kind}: {LNAME[inp[0]]} x{dur}" + (f" [{fl}]" if fl else "")
+        d = f"x{dur}" if dur >= 0 else f"until the device chirp has ended (<= {-dur})"
+        return f"{kind}: {LNAME[inp[0]]} {d}" + (f" [{fl}]" if fl else "")
 
     def apply(self, cur, env, a):
         pos, left, mask, mt = env
@@ -293,7 +298,7 @@ class ResetSpec(Spec):
         mon = Mon(mt)
         kw = dict(line_state=inp[0], vbus_connected=inp[1], disconnect=inp[2], full_speed_only=inp[3],
                   low_speed_only=inp[4], bus_busy=inp[5])
-        rem = dur
+        rem = abs(dur)
         while rem:
             k, first, last = cur.hold(rem, **kw)
             rem -= k
@@ -301,7 +306,9 @@ class ResetSpec(Spec):
                 self.advance(mon, inp, first, k)
             else:
                 self.advance(mon, inp, first, k - 1)
+                was = mon.ctx
                 self.advance(mon, inp, last, 1)
+                if dur < 0 and was == 2 and mon.ctx == 3: break       # reactive segment: the device chirp has just ended
         return (pos + adv, left - (0 if kind == "nominal" else 1), mask2, mon.tup())
 
     # ---------------------------------------------------------------- oracle
